@@ -27,17 +27,76 @@ func gen(t *rapid.T) Case {
 			}
 		}
 		h.Ops = ops
+	} else if rapid.Bool().Draw(t, "probe") {
+		h.Probe = true
+		if rapid.IntRange(0, 2).Draw(t, "narrow") > 0 {
+			// narrow fan-out: the tree gets four and more levels within the history's length
+			h.Max = rapid.SampledFrom([]int{4, 4, 5, 6}).Draw(t, "probemax")
+			h.Min = 2
+			// a build phase first, then a long run of deletes and inserts, so that many deletes act on a tall tree
+			n := rapid.IntRange(25, 160).Draw(t, "prebuild")
+			churn := rapid.IntRange(20, 200).Draw(t, "churn")
+			span := rapid.SampledFrom([]int{12, 40}).Draw(t, "prespan")
+			wide := rapid.SampledFrom([]int{0, 2, 2, 9}).Draw(t, "prewide")
+			pre := make([]rtreekit.Op, n+churn)
+			for i := range pre {
+				if i >= n && rapid.IntRange(0, 1).Draw(t, "churndel") == 0 {
+					pre[i] = rtreekit.Op{K: "del", Idx: rapid.IntRange(0, 1000).Draw(t, "cidx")}
+					continue
+				}
+				pre[i] = rtreekit.Op{K: "ins", Box: [4]int{rapid.IntRange(0, span).Draw(t, "px"), rapid.IntRange(0, span).Draw(t, "py"), rapid.IntRange(0, wide).Draw(t, "pw"), rapid.IntRange(0, wide).Draw(t, "ph")}}
+			}
+			h.Ops = append(pre, h.Ops...)
+		}
 	}
 	return h
 }
 
 const eps = 1e-12
 
+// probeDirs: sixteen directions, probeRadii: how far from the removed object the k = 1 probes are placed
+var probeRadii = []float64{0.75, 2.5, 6, 11, 19}
+
+// probe queries the nearest neighbour from points around box b.
+func probe(m *rtreekit.Model, b *geom.Bounds) string {
+	if len(m.Live) == 0 {
+		return ""
+	}
+	cx, cy := (b.Min.X+b.Max.X)/2, (b.Min.Y+b.Max.Y)/2
+	for d := 0; d < 16; d++ {
+		a := float64(d) * math.Pi / 8
+		dx, dy := math.Cos(a), math.Sin(a)
+		for _, r := range probeRadii {
+			p := geom.Point{X: cx + r*dx, Y: cy + r*dy}
+			best := math.Inf(1)
+			for _, o := range m.Live {
+				if d := rtreekit.BoxDist(p, o.Bounds()); d < best {
+					best = d
+				}
+			}
+			var o geom.Geom
+			if d%2 == 0 {
+				o = m.Tree.NearestNeighbor(p)
+			} else {
+				o = m.Tree.NearestNeighbors(1, p)[0]
+			}
+			if o == nil {
+				return fmt.Sprintf("nearest-neighbour query from %v after the delete returned nil (size %d)", p, len(m.Live))
+			}
+			if got := rtreekit.BoxDist(p, o.Bounds()); vkit.Off(got-best, eps) {
+				return fmt.Sprintf("nearest-neighbour query from %v right after the delete returned an object at distance %v, the minimum over the %d stored objects is %v (depth %d)", p, got, len(m.Live), best, m.Tree.Depth())
+			}
+		}
+	}
+	return ""
+}
+
 func run(c Case) (v vkit.Verdict) {
 	m := rtreekit.NewModel(c)
 	var ev rtreekit.Events
 	v.Class("kind_" + c.Kind)
-	queries := 0
+	queries, probes := 0, 0
+	var recent []*geom.Bounds
 	for i, op := range c.Ops {
 		var msg string
 		if p := vkit.Catch(func() {
@@ -112,6 +171,25 @@ func run(c Case) (v vkit.Verdict) {
 					v.NonTrivial = true
 					ev.Refilled = ev.Refilled || false
 				}
+			case "del":
+				var gone *geom.Bounds
+				if c.Probe && len(m.Live) > 0 && m.Tree.Depth() >= 3 {
+					gone = m.Live[op.Idx%len(m.Live)].Bounds()
+				}
+				if msg = m.Step(op, &ev, false); msg == "" && gone != nil {
+					probes++
+					// around the object just removed and around the two removed before it (a box left too large by an
+					// earlier delete stays until an insert passes through it)
+					recent = append(recent, gone)
+					if len(recent) > 3 {
+						recent = recent[1:]
+					}
+					for _, b := range recent {
+						if msg = probe(m, b); msg != "" {
+							break
+						}
+					}
+				}
 			default:
 				msg = m.Step(op, &ev, false)
 			}
@@ -125,6 +203,10 @@ func run(c Case) (v vkit.Verdict) {
 	if queries == 0 {
 		v.Class("no_query")
 	}
+	if probes > 0 {
+		v.Class("probed_after_delete")
+		v.NonTrivial = true
+	}
 	return v
 }
 
@@ -135,10 +217,14 @@ func TestProp(t *testing.T) {
 			"*Bounds/Point/comparable structs on a small integer grid or (a third of the histories) at non-integer positions, zero-width and zero-height boxes included, with hot-spot phases of coincident and nested boxes; interleaved queries NearestNeighbor(p) and NearestNeighbors(k,p) with p on the half-integer grid (plus a fractional offset in float histories) inside, outside " +
 			"and on box borders, k in 1..min(12,Size+3). Oracle: own point-box distance; NearestNeighbor returns a stored object at the minimum distance; NearestNeighbors returns k slots, " +
 			"first min(k,Size) non-nil stored objects (multiplicity respected) in non-decreasing distance whose j-th distance equals the j-th smallest over all stored objects, the rest nil. " +
-			"Non-trivial = a k>=2 query on a tree of depth>=2, or a tie at the k-th distance. Distinct by case hash.",
-		Assumptions: []string{"ties are compared by distance, not identity", "queries are only issued on non-empty trees"},
-		Gen:         gen,
-		Run:         run,
-		NSamples:    2,
+			"Three eighths of the histories are probe histories (two thirds of those: fan-out 2..4-6, a build phase of 25-160 inserts and 20-200 alternating deletes and inserts, boxes up to 9 wide, so " +
+			"that many deletes act on a tree of four and more levels): every delete on a tree of depth>=3 is followed by 80 k=1 queries (NearestNeighbor and NearestNeighbors(1,.) alternately) from sixteen directions at five " +
+			"distances around the removed object and around the two removed before it, each compared with the minimum over all stored objects. " +
+			"Non-trivial = a k>=2 query on a tree of depth>=2, a tie at the k-th distance, or a probe battery after a delete. Distinct by case hash.",
+		Assumptions: []string{"ties are compared by distance, not identity", "queries are only issued on non-empty trees",
+			"coordinates stay below the magnitude (about 1e150) at which the package's squared distances and box areas overflow: beyond it Insert's area comparisons and the MaxFloat64 'nothing found yet' marker of the queries stop working (observed by a round-6 author: points at 1e200 queried from the origin give nil slots), which is a limit of the whole package, not of the search order this property is about"},
+		Gen:      gen,
+		Run:      run,
+		NSamples: 2,
 	})
 }
